@@ -287,6 +287,57 @@ def r4_slices(chk, repo):
                       site_text="_cut_outside_hits: [:a - b] only under a > b", site={"function": f.qualname, "slice": "open left"})
             chk.check(isinstance(st.value, ast.Subscript) and norm(st.value.slice) == norm(sl), R, f, st, "source and destination samples are not the same slice", site_text="_cut_outside_hits: same slice copied (next fragment)")
     chk.floor(R, "open-ended sample slices in _cut_outside_hits", n, 2)
+    # which link array serves which side: record_links returns (previous, next); the fragment that
+    # gets the `[k:]` tail must be looked up in the first, the one that gets the `[:k]` head in the second
+    rl = repo.func("record_links", PULSE)
+    rret = [st for st in walk_body(rl.node) if isinstance(st, ast.Return) and isinstance(st.value, ast.Tuple) and len(st.value.elts) == 2]
+    chk.check(bool(rret), R, rl, None, "record_links no longer returns a pair of link arrays", site_text="record_links: returns (previous, next)")
+
+    def link_position(func, name, depth=2):
+        """0 / 1 if local `name` of `func` holds the first / second array returned by record_links."""
+        for st in walk_body(func.node):
+            if isinstance(st, ast.Assign) and isinstance(st.targets[0], ast.Tuple) and isinstance(st.value, ast.Call) and (call_name(st.value) or "").endswith("record_links"):
+                names = [norm(e) for e in st.targets[0].elts]
+                if name in names:
+                    return names.index(name)
+        if name in func.params and depth > 0:
+            pi = func.params.index(name)
+            for g in repo.functions:
+                for c in calls_in(g.node):
+                    if (call_name(c) or "").split(".")[-1] == func.name and g is not func:
+                        pos = 0
+                        for a in c.args:
+                            if isinstance(a, ast.Starred):
+                                src = a.value
+                                v = Defs(g.node).single(src.id) if isinstance(src, ast.Name) else src
+                                if isinstance(v, ast.Call) and (call_name(v) or "").endswith("record_links") and pos <= pi <= pos + 1:
+                                    return pi - pos
+                                pos += 2
+                            else:
+                                if pos == pi and isinstance(a, ast.Name):
+                                    return link_position(g, a.id, depth - 1)
+                                pos += 1
+        return None
+
+    for st in walk_body(f.node):
+        if not (isinstance(st, ast.Assign) and isinstance(st.targets[0], ast.Subscript) and isinstance(st.targets[0].slice, ast.Slice)):
+            continue
+        sl = st.targets[0].slice
+        tail = sl.lower is not None and sl.upper is None
+        head_ = sl.lower is None and sl.upper is not None
+        if not (tail or head_):
+            continue
+        # new_recs[<idx>]["data"][...]: where does <idx> come from?
+        idx = None
+        for x in ast.walk(st.targets[0]):
+            if isinstance(x, ast.Subscript) and isinstance(x.slice, ast.Name) and isinstance(x.value, ast.Name):
+                idx = x.slice.id
+        src = defs.single(idx) if idx else None
+        arr = norm(src.value) if isinstance(src, ast.Subscript) else None
+        pos = link_position(f, arr) if arr else None
+        want = 0 if tail else 1
+        chk.check(pos == want, R, f, st, f"the fragment that receives the {'tail `[k:]`' if tail else 'head `[:k]`'} of a hit's extension is looked up in `{arr}`, which holds the {'second (next)' if pos == 1 else 'first (previous)' if pos == 0 else 'unknown'} array of record_links: samples of the wrong neighbouring fragment are kept",
+                  site_text=f"_cut_outside_hits: {'previous' if tail else 'next'} fragment from record_links()[{want}]", site={"function": f.qualname, "slice": "tail" if tail else "head", "rule": "link side"})
 
 
 # ------------------------------------------------------------------------------------ R5
@@ -410,6 +461,8 @@ def r7_stale_locals(chk, repo, rule, paths):
 
 
 WITNESSES = [
+    W("link arrays unpacked in the wrong order", "C18.R4", RED,
+      "previous_record, next_record = record_links(records)", "next_record, previous_record = record_links(records)"),
     W("height of an earlier hit leaks into the next one", "C18.R6", PULSE,
       "res[\"max_time\"] = max_time\n                    area = height = 0", "res[\"max_time\"] = max_time\n                    area = 0"),
     W("baseline rms carried over from the previous record", "C18.R7", PULSE,
